@@ -230,7 +230,10 @@ def honesty_cases(nd):
             ('1/x', lambda x: 1 / x, lambda x, n: (-1) ** n * float(np.prod(np.arange(1, n + 1))) / x ** (n + 1))]
     optsets = [('default-steps', dict()), ('step=0.01,num_steps=12', dict(step=0.01, num_steps=12)), ('step=1e-4', dict(step=1e-4)),
                ('step=1e-6,num_steps=10', dict(step=1e-6, num_steps=10)), ('step=1e-9,num_steps=20', dict(step=1e-9, num_steps=20)),
-               ('step=1e-10,num_steps=30', dict(step=1e-10, num_steps=30))]
+               ('step=1e-10,num_steps=30', dict(step=1e-10, num_steps=30)),
+               ('step=0.01,num_steps=2,richardson_terms=0', dict(step=0.01, num_steps=2, richardson_terms=0)),
+               ('step=0.01,num_steps=3,richardson_terms=0', dict(step=0.01, num_steps=3, richardson_terms=0)),
+               ('step=0.01,num_steps=4,richardson_terms=1', dict(step=0.01, num_steps=4, richardson_terms=1))]
     with warnings.catch_warnings():
         warnings.simplefilter('ignore')
         for name, f, dn in funs:
@@ -246,7 +249,8 @@ def honesty_cases(nd):
                             exact = dn(x, n)
                             scale = max(abs(exact), abs(f(x)), 1.0)
                             est = float(np.abs(info.error_estimate))
-                            if not abs(v - exact) <= 100 * est + 1e-5 * scale * 10 ** n:
+                            # (an estimate of exactly 0 claims an exact result: only rounding-level error is compatible with it)
+                            if not abs(v - exact) <= 100 * est + 1e-5 * scale * 10 ** n or (est == 0.0 and abs(v - exact) > 1e-9 * scale * 10 ** n):
                                 worst = dict(x=x, value=float(v), exact=float(exact), error_estimate=est); break
                         out['%s,n=%d,%s,%s' % (name, n, method, oname)] = (worst is None, worst)
     return out
@@ -572,4 +576,133 @@ def dea3_layout_cases(dea3):
                 if not (np.shape(r) == np.shape(e0) and (r[idx] == rs[0] or (np.isnan(r[idx]) and np.isnan(rs[0]))) and (a[idx] == as_[0] or (np.isnan(a[idx]) and np.isnan(as_[0])))):
                     bad.append(dict(layout=name, index=idx, terms=(float(e0[idx]), float(e1[idx]), float(e2[idx])), in_array=(float(r[idx]), float(a[idx])), alone=(float(rs[0]), float(as_[0]))))
                     break
+    return cnt, bad
+
+
+def jacobian_shape_cases(nd):
+    """the un-stubbed Jacobian / Gradient on affine maps over the corners of the property's range (every extent 1 included):
+    shape (m, n) / (m, n, k) / (n,), exact to rounding, one error estimate and final step per entry"""
+    rng = np.random.default_rng(4)
+    bad = []
+    cnt = 0
+    with warnings.catch_warnings():
+        warnings.simplefilter('ignore')
+        for m in ('scalar', 1, 2, 6):
+            for n in (1, 2, 8):
+                for k in (None, 1, 2, 4):
+                    if m == 'scalar' and k is not None:
+                        continue
+                    m_ = 1 if m == 'scalar' else m
+                    shapeA = (n,) if m == 'scalar' else ((m_, n) if k is None else (m_, k, n))
+                    A = rng.integers(-4, 5, size=shapeA).astype(float) + 0.5
+                    b = rng.normal(size=shapeA[:-1])
+                    f = lambda x, A=A, b=b: np.dot(A, x) + b
+                    x = rng.uniform(-2, 2, size=n) * np.array([1.0, 10.0, 0.1, 3.0, 1.0, 7.0, 0.3, 2.0])[:n]
+                    want = A.reshape(1, n) if m == 'scalar' else (A if k is None else np.transpose(A, (0, 2, 1)))
+                    for method in ('central', 'forward', 'complex', 'multicomplex'):
+                        cnt += 1
+                        try:
+                            J, info = nd.Jacobian(f, method=method, full_output=True)(x)
+                        except Exception as e:
+                            bad.append(dict(m=m, n=n, k=k, method=method, raised=repr(e)[:100])); continue
+                        if np.shape(J) != want.shape or not np.allclose(J, want, rtol=1e-6, atol=1e-7) or np.size(info.error_estimate) != np.size(J):
+                            bad.append(dict(m=m, n=n, k=k, method=method, shape=np.shape(J), expected_shape=want.shape, got=np.asarray(J).ravel()[:4].tolist(),
+                                            expected=want.ravel()[:4].tolist()))
+                    if m == 'scalar':
+                        g = nd.Gradient(f)(x)
+                        cnt += 1
+                        if np.shape(g) != (() if n == 1 else (n,)) or not np.allclose(g, A.reshape(np.shape(g)), rtol=1e-6, atol=1e-7):
+                            bad.append(dict(cls='Gradient', n=n, shape=np.shape(g)))
+    return cnt, bad
+
+
+def dea_cases(ex):
+    """Dea on concrete sequences (floating point): finite result and error estimate for finite input on sequences that hit the
+    guards early (arithmetic starts, repeated terms, zeros), abserr >= 5 eps |result| from the third term on, first three
+    terms == dea3, and L + sum a_i q_i^n found in the table after 2k+1 terms"""
+    EPS = np.finfo(float).eps
+    bad = []
+    cnt = 0
+    seqs = {'arithmetic start': [1.0, 2.0, 3.0, 3.5, 3.75, 3.875, 3.9375], 'zero in the middle': [-1.0, 0.0, 0.5, 0.75, 0.875, 0.9375],
+            'two equal leading terms': [1.0, 1.0, 1.5, 1.75, 1.875, 1.9375, 1.96875], 'three equal then change': [2.0, 2.0, 2.0, 3.0, 3.5, 3.75, 3.875],
+            'touches zero': [2.0, 0.5, 0.0, -0.25, -0.375], 'geometric': [1 + 0.5 ** k for k in range(40)], 'alternating': [1 + (-0.7) ** k for k in range(40)],
+            'constant': [3.0] * 12, 'harmonic': [float(sum(1.0 / (j + 1) ** 2 for j in range(k + 1))) for k in range(30)]}
+    for limexp in (3, 5, 7, 21):
+        for name, seq in seqs.items():
+            cnt += 1
+            d = ex.Dea(limexp=limexp)
+            for k, v in enumerate(seq):
+                try:
+                    with np.errstate(all='ignore'):
+                        res, err = d(v)
+                except Exception as e:
+                    bad.append(dict(limexp=limexp, sequence=name, term=k, raised=repr(e)[:80])); break
+                if not (np.isfinite(res) and np.isfinite(err)):
+                    bad.append(dict(limexp=limexp, sequence=name, term=k, result=float(res), abserr=float(err), problem='not finite')); break
+                if k >= 2 and not err >= 5 * EPS * abs(res) * (1 - 1e-12):
+                    bad.append(dict(limexp=limexp, sequence=name, term=k, abserr=float(err), floor=5 * EPS * abs(res))); break
+                if k == 2:
+                    r3 = float(ex.dea3(*seq[:3])[0][0])
+                    if not abs(res - r3) <= 1e-9 * max(1.0, abs(r3)):
+                        bad.append(dict(limexp=limexp, sequence=name, term=2, dea=float(res), dea3=r3)); break
+    for k, (L, amps, qs) in enumerate([(1.5, [3.5], [0.6]), (2.0, [2.5, 0.5], [0.8, 0.3]), (-1.0, [1.0, -2.0, 0.7], [0.7, 0.45, -0.2])], start=1):
+        for limexp in (21, 51):
+            cnt += 1
+            d = ex.Dea(limexp=limexp)
+            for j in range(2 * k + 1):
+                d(L + sum(a * q ** j for a, q in zip(amps, qs)))
+            tab = np.asarray(d.epstab[:d._n + 1], dtype=float)
+            if not np.any(np.abs(tab - L) <= 1e-7 * max(1.0, abs(L))):
+                bad.append(dict(limexp=limexp, transients=k, terms=2 * k + 1, limit=L, table=tab.tolist()))
+    return cnt, bad
+
+
+def limit_cases(lm):
+    """Limit / Residue on concrete removable singularities and poles: g(z0) recovered within 1e-7 for real and complex z0, scalar
+    and array, above / below, radial / spiral, through __call__ (NaN replacement) and through limit(); regular points keep f's own
+    value; explicit orders for Residue"""
+    bad = []
+    cnt = 0
+    g = lambda z: np.exp(0.5 * z) + z * z
+    kernels = {'sin(w)/w': lambda w: np.sin(w) / w, 'expm1(w)/w': lambda w: np.expm1(w) / w, 'w/sin(w)': lambda w: w / np.sin(w)}
+    with warnings.catch_warnings():
+        warnings.simplefilter('ignore')
+        for kname, s_ in kernels.items():
+            for z0 in (0.3, -1.2, 0.3 + 0.4j, -0.5j, np.array([0.3, -1.2, 2.0]), np.array([0.3 + 0.4j, -0.2 - 0.7j])):
+                def f(z, z0=z0, s_=s_):
+                    with np.errstate(all='ignore'):
+                        return g(z) * s_(z - z0)
+                for method in ('above', 'below'):
+                    for path in ('radial', 'spiral'):
+                        cnt += 1
+                        try:
+                            v1 = lm.Limit(f, method=method, path=path)(z0)
+                            v2 = lm.Limit(f, method=method, path=path).limit(z0)
+                        except Exception as e:
+                            bad.append(dict(kernel=kname, z0=str(z0), method=method, path=path, raised=repr(e)[:100])); continue
+                        want = g(np.asarray(z0))
+                        for nm, v in (('Limit.__call__', v1), ('Limit.limit', v2)):
+                            # (Limit.__call__ returns a 1-element array for a scalar point: sizes are compared, values element-wise)
+                            if np.size(v) != np.size(z0) or (nm == 'Limit.limit' and np.shape(v) != np.shape(z0)) or not np.allclose(np.ravel(v), np.ravel(want), rtol=1e-7, atol=1e-7):
+                                bad.append(dict(kernel=kname, z0=str(z0), method=method, path=path, via=nm, got=str(np.asarray(v).tolist())[:80], expected=str(np.asarray(want).tolist())[:80]))
+        # regular points keep f's own value; arrays mixing singular and regular, real and complex
+        zz = np.array([0.3 + 0.4j, 1.0, -0.7j])
+        fm = lambda z: g(z) * np.where(z == 1.0, np.nan, 1.0) if False else g(z) * (np.sin(z - 1.0) / (z - 1.0))
+        cnt += 1
+        v = lm.Limit(fm)(zz)
+        want = np.where(zz == 1.0, g(1.0), fm(np.where(zz == 1.0, 2.0, zz)))
+        if not np.allclose(v, want, rtol=1e-7, atol=1e-7):
+            bad.append(dict(what='array mixing regular complex points and a singular point', got=str(v.tolist())[:100], expected=str(want.tolist())[:100]))
+        for p in (1, 2, 3):
+            for order in (None, p + 2, p + 3, p + 4):
+                for z0 in (0.3, 0.2 - 0.6j):
+                    cnt += 1
+                    fr = lambda z, z0=z0, p=p: g(z) / (z - z0) ** p
+                    kw = {} if order is None else dict(order=order)
+                    try:
+                        r = lm.Residue(fr, pole_order=p, **kw)(z0)
+                    except Exception as e:
+                        bad.append(dict(what='Residue', pole_order=p, order=order, z0=str(z0), raised=repr(e)[:100])); continue
+                    if not abs(r - g(z0)) <= 1e-6 * max(1.0, abs(g(z0))):
+                        bad.append(dict(what='Residue', pole_order=p, order=order, z0=str(z0), got=str(r), expected=str(g(z0))))
     return cnt, bad
